@@ -219,7 +219,13 @@ def file_phase(chunk):
                     t.count("files")
                     case = {"term": term, "leafopts": sorted(lo.items()), "gaps": None, "head": hname}
                     try:
-                        got = ref_sgml.et_to_term(OFXTree().parse(io.BytesIO(data)))
+                        tree = OFXTree()
+                        got = ref_sgml.et_to_term(tree.parse(io.BytesIO(data)))
+                        # the header object handed back is the caller's (e.g. to write the file out again under another
+                        # charset): editing it must not reach any later parse
+                        for attr, val in (("charset", "1252" if getattr(tree.header, "charset", None) != "1252" else "NONE"), ("version", 103 if hname.startswith("v1") else 220), ("newfileuid", "EDITED")):
+                            if hasattr(tree.header, attr):
+                                setattr(tree.header, attr, val)
                     except Exception as e:
                         t.fail(f"C02|file|{hname}|raises-{type(e).__name__}", case, f"{type(e).__name__}: {e} on {head[-30:] + text!r}")
                         continue
